@@ -1024,6 +1024,28 @@ func corpus() []jcase {
 			{Op: "commit", V: 1}, {Op: "newversion", V: 1},
 			{Op: "cleave", V: 2, N: 1, Labels: []uint64{2}}, {Op: "lmmerge", V: 2, Labels: []uint64{4, 5}}, {Op: "maxlabel", V: 2, N: 50},
 			{Op: "restart"}, {Op: "commit", V: 2}, {Op: "newversion", V: 2}, {Op: "lmmerge", V: 3, Labels: []uint64{4, 1}}, {Op: "restart", Kill: true}}},
+		// per-version counters set on SIBLING branches to values below what another branch already
+		// holds (so below the instance-wide maximum), restarted, then continued on a grandchild
+		{Kind: "history", Name: "sibling-counters", Ops: []hop{
+			{Op: "ingest", V: 1, Labels: []uint64{1, 2, 3}}, {Op: "maxlabel", V: 1, N: 50},
+			{Op: "commit", V: 1}, {Op: "newversion", V: 1}, {Op: "branch", V: 1, Branch: "b1"}, {Op: "branch", V: 1, Branch: "b2"},
+			{Op: "maxlabel", V: 2, N: 100}, {Op: "maxlabel", V: 3, N: 70}, {Op: "maxlabel", V: 4, N: 60},
+			{Op: "restart"},
+			{Op: "nextlabel", V: 4, N: 2}, {Op: "maxlabel", V: 3, N: 65}, {Op: "ingest", V: 4, Labels: []uint64{55}},
+			{Op: "commit", V: 3}, {Op: "newversion", V: 3}, {Op: "maxlabel", V: 5, N: 80}, {Op: "ingest", V: 5, Labels: []uint64{75}},
+			{Op: "restart", Kill: true},
+			{Op: "commit", V: 4}, {Op: "newversion", V: 4}, {Op: "maxlabel", V: 6, N: 90}, {Op: "restart"}}},
+		// raw mapping batches: identity records (a supervoxel mapped back to itself) over an ancestor's
+		// mapping, the same supervoxel re-mapped in several versions of one ancestry and on a sibling
+		{Kind: "history", Name: "mappings-identity-remap", Ops: []hop{
+			{Op: "ingest", V: 1, Labels: []uint64{1, 2, 3, 4}},
+			{Op: "mappings", V: 1, Maps: [][]uint64{{1, 2}, {3, 4}}},
+			{Op: "commit", V: 1}, {Op: "newversion", V: 1}, {Op: "branch", V: 1, Branch: "b1"},
+			{Op: "mappings", V: 2, Maps: [][]uint64{{2, 2}, {1, 4}}}, {Op: "mappings", V: 3, Maps: [][]uint64{{4, 4}, {2, 2}, {2, 1}}},
+			{Op: "restart"},
+			{Op: "commit", V: 2}, {Op: "newversion", V: 2}, {Op: "mappings", V: 4, Maps: [][]uint64{{1, 2}, {4, 4}}},
+			{Op: "restart", Kill: true},
+			{Op: "commit", V: 4}, {Op: "newversion", V: 4}, {Op: "mappings", V: 5, Maps: [][]uint64{{2, 2}, {3, 3}, {3, 1}}}, {Op: "restart"}}},
 		{Kind: "history", Name: "labelmap-mutations", Ops: []hop{
 			{Op: "ingest", V: 1, Labels: []uint64{1, 2, 3, 4}}, {Op: "nextlabel", V: 1, N: 2},
 			{Op: "lmmerge", V: 1, Labels: []uint64{1, 2, 3}}, {Op: "cleave", V: 1, N: 1, Labels: []uint64{3}},
@@ -1126,7 +1148,7 @@ func randomHistory(rng *lib.Rand, i int) jcase {
 		case 9, 10, 11:
 			// label mutations at ANY open version (records in several versions of a path)
 			if !n.Locked && len(bodies) >= 2 {
-				switch rng.Intn(7) {
+				switch rng.Intn(8) {
 				case 0, 1:
 					a, b := rng.Intn(len(bodies)), rng.Intn(len(bodies))
 					if a != b {
@@ -1140,13 +1162,22 @@ func randomHistory(rng *lib.Rand, i int) jcase {
 					// a mapping batch; some of its operations are the all-default one (zero-byte record)
 					var maps [][]uint64
 					for j := 0; j < 1+rng.Intn(4); j++ {
-						if rng.Chance(0.35) {
+						orig := ls[rng.Intn(len(ls))]
+						switch d := rng.Intn(20); {
+						case d < 6:
 							maps = append(maps, []uint64{})
-						} else {
-							maps = append(maps, []uint64{uint64(100 + rng.Intn(5)), ls[rng.Intn(len(ls))]})
+						case d < 10: // identity record: the supervoxel is its own body again
+							maps = append(maps, []uint64{orig, orig})
+						case d < 13: // onto another supervoxel of the volume
+							maps = append(maps, []uint64{ls[rng.Intn(len(ls))], orig})
+						default:
+							maps = append(maps, []uint64{uint64(100 + rng.Intn(5)), orig})
 						}
 					}
 					do(hop{Op: "mappings", V: n.VersionID, Maps: maps})
+				case 5:
+					// a per-version counter set to a value that other versions may already exceed
+					do(hop{Op: "maxlabel", V: n.VersionID, N: uint64(36 + rng.Intn(80))})
 				default:
 					do(hop{Op: "nextlabel", V: n.VersionID, N: uint64(1 + rng.Intn(3))})
 				}
